@@ -177,6 +177,8 @@ package stick
 //@   ensures nilval: val == nil ==> r0 == 0 && err == nil
 //@   ensures notiter: val != nil && !iterk(ikind(val)) ==> err != nil && r0 == 0
 //@   ensures count: val != nil && iterk(ikind(val)) ==> 0 <= r0 && r0 <= rv_len(rv_ind(rv_of(val)))
+// C06: the count is zero exactly for an empty sequence (what selects the else branch of a for loop)
+//@   ensures empty: val != nil && iterk(ikind(val)) ==> (r0 == 0) == (rv_len(rv_ind(rv_of(val))) == 0)
 //@   loop 1 invariant 0 <= i && i <= ln && ln == rv_len(r) && loopOK(l, i, ln) && (rv_kind(r) == 23 || rv_kind(r) == 17) && rv_caniface(r)
 //@   loop 1 decreases ln - i
 //@   loop 2 invariant rangeindex >= -1 && rangeindex < len(keys) && len(keys) == ln && ln == rv_len(r) && rv_kind(r) == 21 && rv_caniface(r) && loopOK(l, rangeindex + 1, ln)
@@ -239,6 +241,9 @@ package stick
 //@ pred stackOf(s *state) = s.scope.scopes
 
 //@ func stick.(*state).walk
+// C06: an if node walks its body exactly when the condition is truthy, else its else-part
+//@   at "s.walk(node.Body)" then: truthspec(v)
+//@   at "s.walk(node.Else)" otherwise: !truthspec(v)
 //@   propagates
 //@   ensures wfail: wfail() && !old(wfail()) ==> err != nil
 //@   ensures order: wafterfail() ==> old(wafterfail()) || old(wfail())
@@ -279,6 +284,8 @@ package stick
 //@   loop 1 invariant frame: xinv(s) && s.scope == old(s.scope) && len(s.scope.scopes) == old(len(s.scope.scopes)) && (forall i trig :: 0 <= i && i < len(s.scope.scopes) ==> s.scope.scopes[i] == old(s.scope.scopes[i])) && s.name == old(s.name) && s.current == old(s.current) && s.env == old(s.env) && len(s.blocks) >= old(len(s.blocks)) && (forall p trig :: allocated(p) && p != old(s.scope) ==> fld("stick.scopeStack", "scopes", p) == old(fld("stick.scopeStack", "scopes", p))) && s.out == old(s.out) && (forall w trig :: allocated(w) && w != ref(old(s.out)) ==> rbuflen(w) == old(rbuflen(w)) && rbufdata(w) == old(rbufdata(w))) && (wfail() ==> old(wfail())) && openfiles() == old(openfiles()) && (wafterfail() ==> old(wafterfail()) || old(wfail()))
 
 //@ func stick.(*state).walkForNode
+// C06: the else branch runs exactly when no element was visited and nothing failed
+//@   at "s.walk(node.Else)" empty: ct == 0 && err == nil
 // C07: the loop's key, value and loop variables are bound with setLocal in the scope pushed by this very iteration
 // (a fresh map, dropped again by the deferred pop), never in a scope that existed before
 //@   at "s.scope.setLocal(kn, k)" own: fresh(top(s.scope))
